@@ -284,56 +284,124 @@ def bash_dollar_quote(b):
     return "".join(out)
 
 
-def run_shell_batch(shell, scripts, *, timeout_each=5, jobs=None, locale="C", setup="", batch=200,
-                    cwd_each=False):
-    """Run each script (str) in its own `shell -c` subprocess spawned from a driver shell script;
-    returns list of dicts {out: bytes-as-latin1 str, rc: int}. Scripts are independent processes
-    (fresh state) but spawned in batches to amortise Python overhead."""
+def run_shell_batch(shell, scripts, *, timeout_each=5, jobs=2, locale="C", **_):
+    """One `shell <file>` process per script (full isolation; ~3 ms each and process creation does
+    not scale with parallelism in this sandbox, so keep the counts small).
+    Returns list of {out, err, rc} (out/err as latin-1 str)."""
     from concurrent.futures import ThreadPoolExecutor
-    jobs = jobs or NCPU
     work = scratch("shb-")
-    results = [None] * len(scripts)
     env = {"PATH": "/usr/local/sbin:/usr/local/bin:/usr/sbin:/usr/bin:/sbin:/bin", "LC_ALL": locale,
            "HOME": work, "TMPDIR": work}
 
-    def run_batch(bi):
-        lo = bi * batch
-        hi = min(len(scripts), lo + batch)
-        bdir = os.path.join(work, "b%d" % bi)
-        os.makedirs(bdir)
-        drv = []
-        for i in range(lo, hi):
-            sp = os.path.join(bdir, "s%d.sh" % i)
-            with open(sp, "wb") as f:
-                data = scripts[i]
-                if isinstance(data, str):
-                    data = data.encode("utf-8", "surrogateescape")
-                f.write(data)
-            d = bdir
-            if cwd_each:
-                d = os.path.join(bdir, "d%d" % i)
-                os.makedirs(d)
-            drv.append("(cd %s && timeout %d %s %s >%s.out 2>%s.err </dev/null; echo $? >%s.rc)" % (
-                shquote(d), timeout_each, shell, shquote(sp), shquote(sp), shquote(sp), shquote(sp)))
-        dp = os.path.join(bdir, "drv.sh")
-        with open(dp, "w") as f:
-            f.write("\n".join(drv) + "\n")
-        subprocess.run(["/bin/sh", dp], env=env, cwd=bdir, stdout=subprocess.DEVNULL, stderr=subprocess.DEVNULL)
-        for i in range(lo, hi):
-            sp = os.path.join(bdir, "s%d.sh" % i)
-            try:
-                out = open(sp + ".out", "rb").read()
-                err = open(sp + ".err", "rb").read()
-                rc = int(open(sp + ".rc").read().strip() or "-1")
-            except Exception:
-                out, err, rc = b"", b"", -1
-            results[i] = {"out": out.decode("latin-1"), "err": err.decode("latin-1")[:500], "rc": rc}
-        shutil.rmtree(bdir, ignore_errors=True)
+    def one(i):
+        d = os.path.join(work, "d%d" % i)
+        os.makedirs(d)
+        sp = os.path.join(d, "s.sh")
+        data = scripts[i]
+        if isinstance(data, str):
+            data = data.encode("latin-1", "replace")
+        with open(sp, "wb") as f:
+            f.write(data)
+        try:
+            p = subprocess.run([shell, sp], cwd=d, env=env, stdin=subprocess.DEVNULL,
+                               capture_output=True, timeout=timeout_each)
+            r = {"out": p.stdout.decode("latin-1"), "err": p.stderr.decode("latin-1")[:500], "rc": p.returncode}
+        except subprocess.TimeoutExpired:
+            r = {"out": "", "err": "timeout", "rc": -9}
+        shutil.rmtree(d, ignore_errors=True)
+        return r
 
     try:
-        nb = (len(scripts) + batch - 1) // batch
         with ThreadPoolExecutor(max_workers=jobs) as ex:
-            list(ex.map(run_batch, range(nb)))
+            return list(ex.map(one, range(len(scripts))))
+    finally:
+        shutil.rmtree(work, ignore_errors=True)
+
+
+def run_shell_evals(snippets, *, shell="bash", prelude="", isolate=False, locale="C", per_process=3000,
+                    jobs=2, timeout=180, cwd_files=None):
+    """Evaluate many snippets inside few shell processes (fork is ~2 ms here and does not parallelise).
+    Each snippet is `eval`ed at top level (so an expansion error aborts only that snippet); with
+    isolate=True each runs in a subshell `( )` (one fork each) so it may `exit`, `cd`, set options.
+    stdout is captured per snippet; stderr is discarded. If a snippet kills the shell it is re-run
+    isolated and the batch continues after it. Returns list of {out, rc} (out latin-1 str)."""
+    from concurrent.futures import ThreadPoolExecutor
+    tok = "%08x" % random.getrandbits(32)
+    B, E = "\x1eB" + tok, "\x1eE" + tok
+    results = [None] * len(snippets)
+    work = scratch("she-")
+    env = {"PATH": "/usr/local/sbin:/usr/local/bin:/usr/sbin:/usr/bin:/sbin:/bin", "LC_ALL": locale,
+           "HOME": work, "TMPDIR": work}
+
+    def quote(sn):
+        if shell == "bash":
+            return bash_dollar_quote(sn.encode("latin-1", "replace") if isinstance(sn, str) else sn)
+        return shquote(sn)
+
+    def script_for(idx, iso):
+        lines = [prelude]
+        for i in idx:
+            q = quote(snippets[i])
+            if iso:
+                lines.append("printf '%s%d\\037' %d; ( eval %s ) 2>/dev/null; printf '%s%d:%%d\\037' $? %d" % (
+                    "\\036B" + tok, 0, i, q, "\\036E" + tok, 0, i) if False else
+                    "printf '\\036B%s:%d\\037'; ( eval %s ) 2>/dev/null </dev/null; printf '\\036E%s:%d:%%d\\037' $?" % (tok, i, q, tok, i))
+            else:
+                lines.append("printf '\\036B%s:%d\\037'; eval %s 2>/dev/null </dev/null; printf '\\036E%s:%d:%%d\\037' $?" % (tok, i, q, tok, i))
+        return "\n".join(lines) + "\n"
+
+    def run_proc(idx, iso, name):
+        d = os.path.join(work, name)
+        os.makedirs(d, exist_ok=True)
+        if cwd_files:
+            for fn, content in cwd_files.items():
+                with open(os.path.join(d, fn), "w") as f:
+                    f.write(content)
+        sp = os.path.join(work, name + ".sh")
+        with open(sp, "wb") as f:
+            f.write(script_for(idx, iso).encode("latin-1", "replace"))
+        try:
+            p = subprocess.run([shell, sp], cwd=d, env=env, stdin=subprocess.DEVNULL,
+                               stdout=subprocess.PIPE, stderr=subprocess.DEVNULL, timeout=timeout)
+            out, rc = p.stdout, p.returncode
+        except subprocess.TimeoutExpired as e:
+            out, rc = e.stdout or b"", -9
+        shutil.rmtree(d, ignore_errors=True)
+        text = out.decode("latin-1")
+        done = {}
+        pat = re.compile("\x1eB%s:(\\d+)\x1f(.*?)\x1eE%s:\\1:(-?\\d+)\x1f" % (tok, tok), re.S)
+        for m in pat.finditer(text):
+            done[int(m.group(1))] = {"out": m.group(2), "rc": int(m.group(3))}
+        return done, rc, text
+
+    def run_chunk(ci_idx):
+        ci, idx = ci_idx
+        pending = list(idx)
+        rounds = 0
+        while pending:
+            rounds += 1
+            done, rc, text = run_proc(pending, isolate, "c%d_%d" % (ci, rounds))
+            for i, r in done.items():
+                results[i] = r
+            rest = [i for i in pending if i not in done]
+            if not rest:
+                break
+            culprit = rest[0]
+            # partial output of the culprit, if any
+            m = re.search("\x1eB%s:%d\x1f(.*)$" % (tok, culprit), text, re.S)
+            if isolate:
+                results[culprit] = {"out": m.group(1) if m else "", "rc": -9 if rc == -9 else (rc if rc is not None else -1), "killed_shell": True}
+            else:
+                d2, rc2, t2 = run_proc([culprit], True, "c%d_%d_iso" % (ci, rounds))
+                results[culprit] = d2.get(culprit, {"out": "", "rc": -9})
+                results[culprit]["killed_shell"] = True
+            pending = rest[1:]
+
+    try:
+        idxs = list(range(len(snippets)))
+        chunks = [(k, idxs[o:o + per_process]) for k, o in enumerate(range(0, len(idxs), per_process))]
+        with ThreadPoolExecutor(max_workers=jobs) as ex:
+            list(ex.map(run_chunk, chunks))
         return results
     finally:
         shutil.rmtree(work, ignore_errors=True)
